@@ -3,6 +3,7 @@ import OV.Lemmas.C01Names
 import OV.Lemmas.C01Sim
 import OV.Lemmas.C01SimIf
 import OV.Lemmas.C01SimFor
+import OV.Model.C01Env
 /-!
 # C01 — script functions mean the same eagerly, as an ONNX graph, and as plain Python
 
@@ -267,6 +268,36 @@ example : forLine forBrkDemo.body = true ∧ (convert forBrkDemo).toOption.isSom
        | .error _ => false) = true := by
   refine ⟨by decide +kernel, by decide +kernel, by decide +kernel, by decide +kernel, by decide +kernel,
     by decide +kernel⟩
+
+/-! ### The names a script function reads from its surroundings (`script()`: closure variables, then module globals) -/
+
+/-- **`env_lookup_closure_first`.**  `script()` hands the converter `env = module.__dict__` updated with
+`inspect.getclosurevars(f).nonlocals`: a variable of an enclosing function wins over a module global of the same
+name, as in Python (and hence in eager execution). -/
+theorem env_lookup_closure_first (nonlocals globals : List (Name × Lit)) (x : Name) (l : Lit)
+    (h : alookup nonlocals x = some l) : envLookup nonlocals globals x = some l := by
+  simp [envLookup, h]
+
+/-- … and a name that no enclosing function binds is read from the module globals. -/
+theorem env_lookup_global_otherwise (nonlocals globals : List (Name × Lit)) (x : Name)
+    (h : alookup nonlocals x = none) : envLookup nonlocals globals x = alookup globals x := by
+  simp [envLookup, h]
+
+/-- The right operand of the returned product, if it is a float literal. -/
+def retFactor : List Stmt → Option String
+  | [.ret [.binop _ _ (.lit (.flt false m))] _] => some m
+  | _ => none
+
+/-- Non-vacuity: `def make(gain): @script() def f(A): return A * gain` called with `3.0` in a module whose global
+`gain` is `10.0`: the converter sees `A * 3.0`; with no enclosing binding it sees `A * 10.0`; a name that is a
+parameter of the function is never resolved from the surroundings. -/
+example :
+    let f : Func := { name := "f", params := [.tensor "A"], retCount := none,
+                      body := [.ret [.binop "Mult" (.var "A") (.var "gain")] false] }
+    retFactor (resolveEnv [("gain", .flt false "3.0")] [("gain", .flt false "10.0")] f).body = some "3.0"
+    ∧ retFactor (resolveEnv [] [("gain", .flt false "10.0")] f).body = some "10.0"
+    ∧ retFactor (resolveEnv [("A", .flt false "3.0")] [] f).body = none := by
+  refine ⟨by decide, by decide, by decide⟩
 
 /-! ### Regression witnesses of the two fixed findings C01-D23 (4304e8f) and C01-D25 (87ad64d) -/
 
